@@ -1,1 +1,74 @@
-(* C16 stub: to be written *)
+(* C16 — Array container keeps shapes, values and independence over any call history.
+   Only statements, each closed by [exact], followed by Print Assumptions. *)
+From Coq Require Import List ZArith.
+From EPG Require Import Scalar State NdArray NdArrayProofs Collection CollectionProofs.
+Import ListNotations.
+
+(* resizing pads with the constant / crops symmetrically about the centre and preserves the
+   retained values (python slices of resize_array; any lengths, any parity of the difference) *)
+Theorem C16_resize_centre (A : Type) (pad : A) (l : list A) (size : nat) :
+  let n := length l in
+  length (resize_list pad l size) = size /\
+  (size <= n ->
+     resize_list pad l size = slice ((n - size) / 2) (n - (n - size + 1) / 2) l /\
+     (n - size) / 2 + (n - size + 1) / 2 = n - size /\
+     forall i, i < size -> nth i (resize_list pad l size) pad = nth ((n - size) / 2 + i) l pad) /\
+  (n <= size ->
+     resize_list pad l size = repeat pad ((size - n) / 2) ++ l ++ repeat pad ((size - n + 1) / 2) /\
+     (size - n) / 2 + (size - n + 1) / 2 = size - n /\
+     (forall j, j < n -> nth ((size - n) / 2 + j) (resize_list pad l size) pad = nth j l pad) /\
+     (forall i, i < size -> (i < (size - n) / 2 \/ (size - n) / 2 + n <= i) ->
+                nth i (resize_list pad l size) pad = pad)).
+Proof. exact (resize_centre pad l size). Qed.
+Print Assumptions C16_resize_centre.
+
+(* the N-d resize of the model is that list operation on the sub-blocks along the axis *)
+Theorem C16_resize_axis_blocks (a : nd) (axis size : nat) (c : Z) :
+  dat (resize_axis a axis size c) =
+  concat (map (fun b => concat (resize_list (repeat c (prod (skipn (S axis) (shp a))))
+                                  (chunksN (nth axis (shp a) 0) (prod (skipn (S axis) (shp a))) b) size))
+              (chunksN (prod (firstn axis (shp a))) (nth axis (shp a) 0 * prod (skipn (S axis) (shp a))) (dat a))).
+Proof. exact (resize_axis_blocks a axis size c). Qed.
+Print Assumptions C16_resize_axis_blocks.
+
+(* after ANY call history with ellipsis-first layouts, both expand conventions, for the collection
+   and its linked child: cached shape = recomputation, per-array broadcast shapes coherent *)
+Theorem C16_cache_reachable (app : bool) (h : list op) :
+  List.Forall op_first h -> CacheInvS (run (start app) h).
+Proof. exact (cache_reachable app h). Qed.
+Print Assumptions C16_cache_reachable.
+
+Theorem C16_copy_equal (s : state) (r : res (option nd)) :
+  observe r (fst (match step s OCopy with Ok x => x | Err _ => (s, None) end)) = observe r s.
+Proof. exact (copy_equal s r). Qed.
+Print Assumptions C16_copy_equal.
+
+(* clauses the faithful model refutes (each replayed on the implementation by props/c16.py) *)
+Theorem C16_set_incompatible_raises_refuted :
+  exists app h, all_ok (start app) h = true /\ get (main (run (start app) h)) 2 true = Err EValue.
+Proof. exact set_incompatible_raises_refuted. Qed.
+Print Assumptions C16_set_incompatible_raises_refuted.
+
+Theorem C16_update_unchecked_refuted :
+  exists app h, List.Forall op_first h /\ all_ok (start app) h = true /\
+                get (main (run (start app) h)) 1 true = Err EValue.
+Proof. exact update_unchecked_refuted. Qed.
+Print Assumptions C16_update_unchecked_refuted.
+
+Theorem C16_update_0d_refuted :
+  exists app h v, all_ok (start app) h = true /\
+    step (run (start app) h) (OMain (OUpdate 0 v false)) = Err EIndex.
+Proof. exact update_0d_refuted. Qed.
+Print Assumptions C16_update_0d_refuted.
+
+Theorem C16_pop_axes_stale :
+  exists app h, all_ok (start app) h = true /\
+    let c := main (run (start app) h) in c_axes c = [(0, 3)] /\ gna (c_arrays c) None = [].
+Proof. exact pop_axes_stale. Qed.
+Print Assumptions C16_pop_axes_stale.
+
+Theorem C16_link_child_refuted :
+  exists app h, List.Forall op_first h /\ all_ok (start app) h = true /\
+    match child (run (start app) h) with Some ch => get ch 0 true = Err EValue | None => False end.
+Proof. exact link_child_refuted. Qed.
+Print Assumptions C16_link_child_refuted.
